@@ -148,12 +148,44 @@ def _run_tickets(engine, world, tickets_faulted, probes, plan=None):
             else:
                 run.call(td)
 
+        async def victim(td, vctx_box):
+            # the faulted call in a task of its own; its context object is kept so that the probes can run in it afterwards
+            run.enter_actor("main")
+            vctx_box.append(contextvars.copy_context())
+            await do(td)
+
         async def main():
             run.enter_actor("main")
+            loop = asyncio.get_running_loop()
+            probe_ctx = None
             for td in tickets_faulted:
                 _poke(run, td, False)
                 try:
-                    await do(td)
+                    if plan is not None and plan.get("top") == td["id"] and plan.get("action") == "timeout":
+                        # cancellation delivered by asyncio.timeout at a virtual instant, in the caller's own task
+                        run.faults_fired["timeout"] = run.faults_fired.get("timeout", 0) + 1
+                        try:
+                            async with asyncio.timeout(plan["t"]):
+                                await do(td)
+                        except TimeoutError:
+                            pass
+                    elif plan is not None and plan.get("top") == td["id"] and plan.get("action") == "cancel_ext":
+                        # cancellation delivered by ANOTHER task at a virtual instant; the victim runs in a task whose
+                        # context the probes re-use afterwards
+                        vctx = contextvars.copy_context()
+                        vt_ = loop.create_task(do(td), name="victim", context=vctx)
+
+                        async def canceller():
+                            await asyncio.sleep(plan["t"])
+                            if not vt_.done():
+                                run.faults_fired["cancel_ext"] = run.faults_fired.get("cancel_ext", 0) + 1
+                                vt_.cancel()
+
+                        ct = loop.create_task(canceller(), name="canceller", context=contextvars.Context())
+                        await asyncio.gather(vt_, ct, return_exceptions=True)
+                        probe_ctx = vctx
+                    else:
+                        await do(td)
                 finally:
                     _poke(run, td, True)
                 t = asyncio.current_task()
@@ -161,8 +193,16 @@ def _run_tickets(engine, world, tickets_faulted, probes, plan=None):
                     t.uncancel()
             run.cancel_plan = None
             run.ev("probes", None, None, None)
-            for td in probes:
-                await do(td)
+
+            async def run_probes():
+                run.enter_actor("main")
+                for td in probes:
+                    await do(td)
+
+            if probe_ctx is not None:
+                await loop.create_task(run_probes(), name="probes", context=probe_ctx)
+            else:
+                await run_probes()
 
         _, vt = simloop.run_in_loop(main, ctx)
         stats["vtime"] = vt
@@ -423,6 +463,7 @@ def expand(scn):
     singles = []
     seen = set()
     n_susp = 0
+    total_wait = [0]
 
     def single(ticket, plan=None):
         s = {"property": ID, "mode": "single", "engine": engine, "world": scn["world"], "probes": scn["probes"], "faulted": [ticket]}
@@ -474,11 +515,18 @@ def expand(scn):
         elif kind == "await":
             if engine == "loop":
                 single(copy.deepcopy(base), {"action": "cancel", "top": base["id"], "p": n_susp})
+                total_wait[0] += detail if isinstance(detail, (int, float)) else 0
             elif engine == "coro":
                 single(copy.deepcopy(base), {"action": "close", "top": base["id"], "p": n_susp})
                 for x in ("FaultError", "FaultBase", "KeyboardInterrupt", "CancelledError"):
                     single(copy.deepcopy(base), {"action": "throw", "top": base["id"], "p": n_susp, "exc": x})
             n_susp += 1
+    if engine == "loop" and n_susp:
+        # cancellation from outside at virtual instants spread over the call's waiting time (half units avoid ties with timers)
+        horizon = int(min(total_wait[0], 8))
+        for k in range(0, horizon + 1):
+            single(copy.deepcopy(base), {"action": "timeout", "top": base["id"], "t": k + 0.5})
+            single(copy.deepcopy(base), {"action": "cancel_ext", "top": base["id"], "t": k + 0.5})
     return singles
 
 
